@@ -363,8 +363,9 @@ pub open spec fn refined(tm: TMapV, old: PartV, new: PartV, org: Seq<int>, idx: 
     &&& forall|j: int, x: StateID| 0 <= j < idx && #[trigger] old[j].contains(x) ==> in_some(new, x)
     &&& groups_disjoint(new)
     &&& forall|i: int, x: StateID, y: StateID| 0 <= i < new.len() && #[trigger] new[i].contains(x) && #[trigger] new[i].contains(y) ==> same_sig(tm, old, x, y)
-    &&& new.len() >= idx
-    &&& new.len() == idx ==> forall|j: int| 0 <= j < idx ==> #[trigger] new[j] == old[j]
+    // as long as no group of old is empty (only the group of non-accepting states of the initial partition can be): pieces never get fewer
+    &&& all_nonempty(old) ==> new.len() >= idx
+    &&& all_nonempty(old) && new.len() == idx ==> forall|j: int| 0 <= j < idx ==> #[trigger] new[j] == old[j]
 }
 /// new1 is new0 followed by pieces (stated element-wise: sequence concatenation terms make the solver wander)
 pub open spec fn is_cat(new0: PartV, pieces: PartV, new1: PartV) -> bool {
@@ -399,17 +400,19 @@ pub proof fn lemma_concat_disjoint(old: PartV, new0: PartV, org0: Seq<int>, idx:
 pub proof fn lemma_refine_s1(tm: TMapV, old: PartV, new0: PartV, org0: Seq<int>, idx: int, pieces: PartV, new1: PartV, org1: Seq<int>)
     requires
         refined(tm, old, new0, org0, idx), 0 <= idx < old.len(), split_ok(tm, old, old[idx], pieces),
-        groups_disjoint(old), all_nonempty(old), is_cat(new0, pieces, new1), is_cat_org(org0, idx, pieces.len() as int, org1),
+        groups_disjoint(old), is_cat(new0, pieces, new1), is_cat_org(org0, idx, pieces.len() as int, org1),
     ensures
-        pieces.len() >= 1, org1.len() == new1.len(),
+        all_nonempty(old) ==> pieces.len() >= 1, org1.len() == new1.len(),
         forall|i: int| 0 <= i < new1.len() ==> 0 <= #[trigger] org1[i] < idx + 1 && set_nonempty(new1[i]),
         forall|i: int, x: StateID| 0 <= i < new1.len() && #[trigger] new1[i].contains(x) ==> old[org1[i]].contains(x),
 {
     reveal(in_some);
     let n0 = new0.len() as int;
-    assert(set_nonempty(old[idx]));
-    let w = choose|w: StateID| #[trigger] old[idx].contains(w);
-    assert(in_some(pieces, w));
+    if all_nonempty(old) {
+        assert(set_nonempty(old[idx]));
+        let w = choose|w: StateID| #[trigger] old[idx].contains(w);
+        assert(in_some(pieces, w));
+    }
     assert forall|i: int| 0 <= i < new1.len() implies 0 <= #[trigger] org1[i] < idx + 1 && set_nonempty(new1[i]) by {
         if i < n0 { assert(new1[i] == new0[i] && org1[i] == org0[i]); } else { assert(new1[i] == pieces[i - n0]); assert(org1[i] == idx); }
     }
@@ -420,7 +423,7 @@ pub proof fn lemma_refine_s1(tm: TMapV, old: PartV, new0: PartV, org0: Seq<int>,
 pub proof fn lemma_refine_s2(tm: TMapV, old: PartV, new0: PartV, org0: Seq<int>, idx: int, pieces: PartV, new1: PartV, org1: Seq<int>)
     requires
         refined(tm, old, new0, org0, idx), 0 <= idx < old.len(), split_ok(tm, old, old[idx], pieces),
-        groups_disjoint(old), all_nonempty(old), is_cat(new0, pieces, new1), is_cat_org(org0, idx, pieces.len() as int, org1),
+        groups_disjoint(old), is_cat(new0, pieces, new1), is_cat_org(org0, idx, pieces.len() as int, org1),
     ensures forall|j: int, x: StateID| 0 <= j < idx + 1 && #[trigger] old[j].contains(x) ==> in_some(new1, x)
 {
     reveal(in_some);
@@ -433,7 +436,7 @@ pub proof fn lemma_refine_s2(tm: TMapV, old: PartV, new0: PartV, org0: Seq<int>,
 pub proof fn lemma_refine_s3(tm: TMapV, old: PartV, new0: PartV, org0: Seq<int>, idx: int, pieces: PartV, new1: PartV, org1: Seq<int>)
     requires
         refined(tm, old, new0, org0, idx), 0 <= idx < old.len(), split_ok(tm, old, old[idx], pieces),
-        groups_disjoint(old), all_nonempty(old), is_cat(new0, pieces, new1), is_cat_org(org0, idx, pieces.len() as int, org1),
+        groups_disjoint(old), is_cat(new0, pieces, new1), is_cat_org(org0, idx, pieces.len() as int, org1),
     ensures forall|i: int, x: StateID, y: StateID| 0 <= i < new1.len() && #[trigger] new1[i].contains(x) && #[trigger] new1[i].contains(y) ==> same_sig(tm, old, x, y)
 {
     let n0 = new0.len() as int;
@@ -444,13 +447,13 @@ pub proof fn lemma_refine_s3(tm: TMapV, old: PartV, new0: PartV, org0: Seq<int>,
 pub proof fn lemma_refine_s4(tm: TMapV, old: PartV, new0: PartV, org0: Seq<int>, idx: int, pieces: PartV, new1: PartV, org1: Seq<int>)
     requires
         refined(tm, old, new0, org0, idx), 0 <= idx < old.len(), split_ok(tm, old, old[idx], pieces),
-        groups_disjoint(old), all_nonempty(old), is_cat(new0, pieces, new1), is_cat_org(org0, idx, pieces.len() as int, org1),
-        pieces.len() >= 1,
-    ensures new1.len() >= idx + 1, new1.len() == idx + 1 ==> forall|j: int| 0 <= j < idx + 1 ==> #[trigger] new1[j] == old[j]
+        groups_disjoint(old), is_cat(new0, pieces, new1), is_cat_org(org0, idx, pieces.len() as int, org1),
+        all_nonempty(old) ==> pieces.len() >= 1,
+    ensures all_nonempty(old) ==> new1.len() >= idx + 1, all_nonempty(old) && new1.len() == idx + 1 ==> forall|j: int| 0 <= j < idx + 1 ==> #[trigger] new1[j] == old[j]
 {
     reveal(in_some);
     let n0 = new0.len() as int;
-    if new1.len() == idx + 1 {
+    if all_nonempty(old) && new1.len() == idx + 1 {
         assert(n0 == idx && pieces.len() == 1);
         assert forall|j: int| 0 <= j < idx + 1 implies #[trigger] new1[j] == old[j] by {
             if j < idx { assert(new1[j] == new0[j]); } else {
@@ -466,8 +469,8 @@ pub proof fn lemma_refine_s4(tm: TMapV, old: PartV, new0: PartV, org0: Seq<int>,
 pub proof fn lemma_refine_step(tm: TMapV, old: PartV, new0: PartV, org0: Seq<int>, idx: int, pieces: PartV, new1: PartV, org1: Seq<int>)
     requires
         refined(tm, old, new0, org0, idx), 0 <= idx < old.len(), split_ok(tm, old, old[idx], pieces),
-        groups_disjoint(old), all_nonempty(old), is_cat(new0, pieces, new1), is_cat_org(org0, idx, pieces.len() as int, org1),
-    ensures refined(tm, old, new1, org1, idx + 1), pieces.len() >= 1
+        groups_disjoint(old), is_cat(new0, pieces, new1), is_cat_org(org0, idx, pieces.len() as int, org1),
+    ensures refined(tm, old, new1, org1, idx + 1), all_nonempty(old) ==> pieces.len() >= 1
 {
     lemma_refine_s1(tm, old, new0, org0, idx, pieces, new1, org1);
     lemma_refine_s2(tm, old, new0, org0, idx, pieces, new1, org1);
@@ -520,6 +523,26 @@ pub fn verif_partition_ne(a: &Vec<StateGroup>, b: &Vec<StateGroup>) -> (r: bool)
 pub fn verif_partition_clone(b: &Vec<StateGroup>) -> (r: Vec<StateGroup>)
     ensures pv(r@) == pv(b@), r@.len() == b@.len()
 { b.clone() }
+/// the same when group 0 may be empty (initial partition of an automaton all of whose states accept)
+pub proof fn lemma_groups_bounded1(p: PartV, n: int)
+    requires part_ok(p, n), p.len() >= 1, forall|g: int| 1 <= g < p.len() ==> set_nonempty(#[trigger] p[g]), 0 <= n <= u32::MAX
+    ensures p.len() <= n + 1
+{
+    let reps = Seq::new((p.len() - 1) as nat, |g: int| choose|x: StateID| #[trigger] p[g + 1].contains(x));
+    assert forall|g: int| 0 <= g < p.len() - 1 implies p[g + 1].contains(#[trigger] reps[g]) by { assert(set_nonempty(p[g + 1])); }
+    assert(reps.no_duplicates()) by {
+        assert forall|i: int, j: int| 0 <= i < reps.len() && 0 <= j < reps.len() && i != j implies reps[i] != reps[j] by {
+            if reps[i] == reps[j] {
+                let x = reps[i];
+                assert(p[i + 1].contains(x) && p[j + 1].contains(x));
+                assert(StateID(x.0 as int as u32) == x);
+                assert(in_grp(p, i + 1, x.0 as int) && in_grp(p, j + 1, x.0 as int));
+            }
+        }
+    }
+    assert forall|i: int| 0 <= i < reps.len() implies 0 <= (#[trigger] reps[i]).0 < 0 + n by { assert(p[i + 1].contains(reps[i])); }
+    lemma_nodup_bounded(reps, 0, n);
+}
 /// non-empty disjoint groups of states below n: at most n groups
 pub proof fn lemma_groups_bounded(p: PartV, n: int)
     requires part_ok(p, n), all_nonempty(p), 0 <= n <= u32::MAX
@@ -1159,4 +1182,14 @@ pub open spec fn tv_of_map(tm: TMapV, tv: Seq<TvEntry>) -> bool {
     &&& tv_sorted(tv)
     &&& forall|i: int| 0 <= i < tv.len() ==> tm.contains_key((#[trigger] tv[i]).0) && ccmap_same(tv[i].1@, tm[tv[i].0]@)
     &&& forall|s: StateID| #[trigger] tm.contains_key(s) ==> tv_has(tv, s)
+}
+
+/// THEOREM (C03): whatever Minimizer::minimize returns accepts, for every class predicate, every word and every token type, exactly what the automaton
+/// it was given accepts (both run from state 0, the start state)
+pub proof fn theorem_minimize_language(d: CompiledDfa, r: CompiledDfa, cls: ClsF, w: Seq<char>, tid: TerminalID)
+    requires d_wf(d), minimized(d, r)
+    ensures d_acc(r, cls, w, tid) <==> d_acc(d, cls, w, tid)
+{
+    let p = choose|p: PartV| #[trigger] part_ok(p, d.states@.len() as int) && stable(d, p) && acc_homog(d, p) && quotient_ok(d, p, r) && all_nonempty(p);
+    theorem_quotient_language(d, p, r, cls, w, tid);
 }
